@@ -9,7 +9,10 @@ RES = os.path.join(S, "results.json")
 ALSO = {"C01-reply-flags-echo": ["C04"], "C01-vring-addr-layout": ["C02"], "C20-hdr-reserved-bits": ["C05"], "C20-vring-align-swap": ["C05"],
         "C03-add-mem-reg-early-return-no-nack": ["C04"], "C04-reply-keeps-need-reply": ["C01"], "C05-region-top-inclusive": ["C20"],
         # round 3: the defect belongs (also) to a sibling property, whose check finds the failing input
-        "R3-C02-unsolicited-nack": ["C04"], "R3-C11-second-worker-event-id": ["C17"], "R3-C11-get-base-unstarted-keeps-call": ["C14"]}
+        "R3-C02-unsolicited-nack": ["C04"], "R3-C11-second-worker-event-id": ["C17"], "R3-C11-get-base-unstarted-keeps-call": ["C14"],
+        # round 4
+        "R4-C12-set-features-stale-legacy-check": ["C11"], "R4-C12-evt-idx-first-queue-offset": ["C17"],
+        "R4-C04-header-size-bound": ["C20", "C05"], "R4-C02-rwlock-adapter-try-write": ["C14"]}
 claimed = {c["property_id"] if "property_id" in c else c.get("id") for c in json.load(open(os.path.join(V, "MANIFEST.json"))).get("checks", [])}
 want = sys.argv[1:]
 res = json.load(open(RES)) if os.path.exists(RES) else {}
